@@ -22,6 +22,7 @@ import (
 	abci "github.com/tendermint/tendermint/abci/types"
 	"github.com/tendermint/tendermint/crypto"
 	"github.com/tendermint/tendermint/crypto/ed25519"
+	"github.com/tendermint/tendermint/crypto/merkle"
 	"github.com/tendermint/tendermint/libs/log"
 	mpmock "github.com/tendermint/tendermint/mempool/mock"
 	bcproto "github.com/tendermint/tendermint/proto/tendermint/blockchain"
@@ -70,22 +71,32 @@ type Node struct {
 }
 
 func (c *Chain) NewNode() *Node {
-	app := &App{Update: c.update}
+	n := c.NewNodeOn(dbm.NewMemDB(), dbm.NewMemDB(), &App{Update: c.update})
+	if err := n.StateStore.Save(n.Genesis); err != nil {
+		panic(err)
+	}
+	return n
+}
+
+// NewApp returns the canonical chain's application (for harnesses that wrap it).
+func (c *Chain) NewApp() App { return App{Update: c.update} }
+
+// NewNodeOn builds a node on the given databases and application the way the node does at boot: the state is
+// loaded from the database, or made from the genesis document when the database is empty; nothing is written.
+// Genesis holds that state.
+func (c *Chain) NewNodeOn(blockDB, stateDB dbm.DB, app abci.Application) *Node {
 	conns := proxy.NewAppConns(proxy.NewLocalClientCreator(app))
 	conns.SetLogger(log.NewNopLogger())
 	if err := conns.Start(); err != nil {
 		panic(err)
 	}
-	ss := sm.NewStore(dbm.NewMemDB(), sm.StoreOptions{DiscardABCIResponses: false})
+	ss := sm.NewStore(stateDB, sm.StoreOptions{DiscardABCIResponses: false})
 	st, err := ss.LoadFromDBOrGenesisDoc(c.GenDoc)
 	if err != nil {
 		panic(err)
 	}
-	if err := ss.Save(st); err != nil {
-		panic(err)
-	}
 	be := sm.NewBlockExecutor(ss, log.NewNopLogger(), conns.Consensus(), mpmock.Mempool{}, sm.EmptyEvidencePool{})
-	return &Node{BlockStore: store.NewBlockStore(dbm.NewMemDB()), StateStore: ss, BlockExec: be, Genesis: st, Conns: conns}
+	return &Node{BlockStore: store.NewBlockStore(blockDB), StateStore: ss, BlockExec: be, Genesis: st, Conns: conns}
 }
 
 func (n *Node) Close() { _ = n.Conns.Stop() }
@@ -146,7 +157,14 @@ func (c *Chain) fullCommit(h int64, id types.BlockID) *types.Commit {
 // NewChain builds the canonical chain. Validators: A(30) B(10) C(10) D(10), total 60 — {A,x} is exactly
 // 2/3, {A,x,y} is more, the last slot is never needed. EndBlock(1) adds E(30): from height 3 the set is
 // {A,E}(30) {B,C,D}(10), total 90 — {A,E} is exactly 2/3, the old quorum {A,x,y} = 50 is not enough.
-func NewChain() *Chain {
+func NewChain() *Chain { return newChain(false) }
+
+// NewBootedChain is the same chain as a network produces it whose nodes all went through the ABCI handshake at
+// genesis: InitChain leaves the hash of an empty result list in the initial state, and block 1 carries it.
+// States[0] is that state. For harnesses whose node boots through the real Handshaker.
+func NewBootedChain() *Chain { return newChain(true) }
+
+func newChain(booted bool) *Chain {
 	c := &Chain{keys: map[string]crypto.PrivKey{}, genTime: time.Date(2022, 6, 1, 12, 0, 0, 0, time.UTC)}
 	names := []string{"A", "B", "C", "D", "E"}
 	pows := []int64{30, 10, 10, 10, 30}
@@ -168,6 +186,9 @@ func NewChain() *Chain {
 	prod := c.NewNode()
 	defer prod.Close()
 	st := prod.Genesis
+	if booted {
+		st.LastResultsHash = merkle.HashFromByteSlices(nil)
+	}
 	c.Blocks = make([]*types.Block, N+1)
 	c.IDs = make([]types.BlockID, N+1)
 	c.Commits = make([]*types.Commit, N+1)
